@@ -21,6 +21,7 @@ Judge(c) ==
     [] PROP = "C05" -> P_C05(c)
     [] PROP = "C06" -> P_C06(c)
     [] PROP = "C10" -> P_C10(c)
+    [] PROP = "C16" -> P_C16(c)
     [] OTHER -> FALSE
 Init == l = 0 /\ TLCSet(2, {})
 Step == l <= N /\ l' = l + 1
